@@ -39,6 +39,8 @@ def gen_cases(ctx, gen_mesh, n):
                 # (one per case: the mesh has unreferenced nodes exactly once; a second
                 # remove_useless_nodes changes nothing and rightly keeps the results)
                 ops.append('drop')
+            elif rng.random() < 0.12:
+                ops.append('mod')           # connectivity assignment: the values change
             else:
                 ops.append({'mode': rng.randrange(n_modes), 'raise': rng.random() < 0.35, 'abs': rng.random() < 0.5})
         cases.append({'slot': slot, 'kind': kind, 'init': init, 'mesh': mesh, 'ops': ops})
@@ -88,6 +90,10 @@ def run(ctx, gen_mesh, n_cases, tag='', cases=None):
         for op, st in zip(c['ops'], o['steps']):
             if op == 'drop':
                 ops.append('Drop')
+                obs.append(f'(Val [], {entry_term(st["entry"])})')
+            elif op == 'mod':
+                s2 = lib.coq_list([qlist(x) for x in st['signed']])
+                ops.append(f'Mod (fun n => nth n {s2} [])')
                 obs.append(f'(Val [], {entry_term(st["entry"])})')
             else:
                 ops.append(f'Call {opts_term(op)}')
